@@ -1,5 +1,6 @@
 """C05 - admission: only accepted peers get channels; their files stay private."""
-from engine.qb import (AnalysisBroken, abstract_run, estr, unwrap, cval, walk, last_field, fields_of, callee_of,
+import sys
+from engine.qb import (cond_cut, AnalysisBroken, abstract_run, estr, unwrap, cval, walk, last_field, fields_of, callee_of,
                        mentions_var, atoms_of, root_var)
 from rules.common import field_is, has_call, derives, value_sources, macro_named
 
@@ -9,11 +10,11 @@ DECIDES = ('Decides that the credentials handed to the accept callback come from
            'connect registers the request dispatcher, and that connection files are created owner-only and are re-owned before their mode '
            'is widened; what the kernel reports for a given peer and the fixed 0770 directory mode are outside the rules.')
 RULES = {
-    'R1': 'ugp fields are written only in qb_ipc_auth_creds from the SCM_CREDENTIALS control message; SO_PASSCRED is enabled before listen and before an accepted socket is polled; accept callback arguments and c->euid/egid are those fields',
+    'R1': 'ugp fields are written only in qb_ipc_auth_creds, from the struct ucred of getsockopt(SO_PEERCRED) - the effective ids recorded at connect() - with the SCM_CREDENTIALS control message (real ids of the last writer) only as the fallback when that call fails; SO_PASSCRED is enabled before listen and before an accepted socket is polled; accept callback arguments and c->euid/egid are those fields',
     'R2': 'the transport connect (only creator of rings/control file/channel sockets) needs accept == 0; refusal sends the error, drops the allocation reference (whose teardown removes the temp dir) and closes the socket; the request dispatcher is registered only inside the connect implementations',
-    'R3': 'connection files are created with mode & 077 == 0 (0600 or mkstemp under umask 077); chmod(auth.mode) follows chown(auth.uid, auth.gid) of the same path; c->auth is written only by handle_new_connection (peer ids, 0600) and qb_ipcs_connection_auth_set',
+    'R3': 'the connection directory keeps mkdtemp\'s 0700 until the accept callback returned 0 and is then re-owned (c->auth.uid/gid) and given a mode derived from c->auth.mode, in handle_new_connection for both transports; connection files are created with mode & 077 == 0 (0600 or mkstemp under umask 077); chmod(auth.mode) follows chown(auth.uid, auth.gid) of the same path; c->auth is written only by handle_new_connection (peer ids, 0600) and qb_ipcs_connection_auth_set',
 }
-FLOORS = {'R1': 7, 'R2': 7, 'R3': 13}
+FLOORS = {'R1': 7, 'R2': 7, 'R3': 16}
 
 
 def run(ctx):
@@ -31,20 +32,60 @@ def r1(ctx):
                   'ugp.%s is also written in %s' % (fld, sorted({fn.name for (fn, _e) in ws})))
     a = prog.fn('qb_ipc_auth_creds')
     sts = [ev for ev in a.events('STORE') if last_field(ev.lhs) and last_field(ev.lhs)[0] == 'ipc_auth_ugp']
-    SCM = 2  # SCM_CREDENTIALS
+    SCM, SO_PEERCRED = 2, 17  # SCM_CREDENTIALS, SO_PEERCRED
     ok = bool(sts)
     for ev in sts:
         r = unwrap(ev.rhs)
         ok = ok and r.get('k') == 'mem' and r.get('rec') == 'ucred'
-        # the struct ucred was memcpy'ed from CMSG_DATA of a message whose type is SCM_CREDENTIALS
+    ctx.check('R1', 'ugp-from-a-kernel-ucred', ok, sts[0] if sts else a, 'every ugp field is copied from a struct ucred', 'a ugp field is not taken from a struct ucred')
+    # the effective ids are those the kernel recorded at connect(): getsockopt(SO_PEERCRED).  The ucred that arrives with a message
+    # (SCM_CREDENTIALS under SO_PASSCRED) is filled in with the REAL ids of whichever process wrote those bytes.
+    pc = [ev for ev in a.events() if (ev.kind == 'CALL' and ev.callee == 'getsockopt' and cval(unwrap(ev.args[2])) == SO_PEERCRED)]
+    pcn = [n for b_ in a.blocks.values() if b_.cond is not None for n in walk(b_.cond)
+           if n.get('k') == 'call' and callee_of(n) == 'getsockopt' and cval(unwrap(n['args'][2])) == SO_PEERCRED]
+    has_peercred = bool(pc) or bool(pcn)
     cps = [ev for ev in a.calls('memcpy')]
-    ok = ok and len(cps) == 1 and cval(unwrap(cps[0].args[2])) == prog.record('ucred')['size'] if 'ucred' in prog.records else ok and len(cps) == 1
 
     def scm(at, fb):
         return field_is(at.l, 'cmsg_type') and at.op == '==' and at.rc == SCM
-    ok = ok and bool(cps) and a.uncut_path(cps[0], scm) is None and all(a.ev_dominates(cps[0], s) for s in sts)
-    ctx.check('R1', 'creds-from-SCM_CREDENTIALS', ok, cps[0] if cps else a, 'ugp is copied from the SCM_CREDENTIALS control message of the handshake receive',
-              'the credentials are not (only) taken from the kernel\'s SCM_CREDENTIALS message')
+
+    def peercred_failed(at, fb):
+        l = unwrap(at.l)
+        return callee_of(l) == 'getsockopt' and cval(unwrap(l['args'][2])) == SO_PEERCRED and at.op == '!=' and at.rc == 0
+    if not has_peercred:
+        ctx.check('R1', 'creds-are-the-effective-ids', False, cps[0] if cps else a, '',
+                  'the ids handed to the accept callback come from the SCM_CREDENTIALS message of the handshake only: the kernel fills that in with the '
+                  'REAL uid/gid of the process that wrote the bytes (a set-uid client is reported under the wrong user; a second writer on the socket '
+                  'replaces the ids); the effective ids are what getsockopt(SO_PEERCRED) reports')
+    else:
+        # the message credentials may only be a fallback for a failed SO_PEERCRED: the block that tests the call dominates the
+        # copy from the control message, and the copy is not reachable from the edge on which the call is known to have succeeded
+        okf = True
+        tested = [b_ for b_ in a.blocks.values() if b_.cond is not None and any(
+            n.get('k') == 'call' and callee_of(n) == 'getsockopt' and cval(unwrap(n['args'][2])) == SO_PEERCRED for n in walk(b_.cond))]
+        if cps:
+            okf = bool(tested)
+            for tb in tested:
+                for (t, lab) in tb.succs:
+                    if lab in (True, False) and cond_cut(tb.cond, lab, lambda at: callee_of(unwrap(at.l)) == 'getsockopt' and at.op == '==' and at.rc == 0):
+                        # a result of the wrong size counts as a failed call: edges on which the length the call returned
+                        # (its last argument) is known to differ from what was asked for are not "success"
+                        call = [n for n in walk(tb.cond) if n.get('k') == 'call' and callee_of(n) == 'getsockopt'][0]
+                        lenv = unwrap(call['args'][4])
+                        lenv = estr(unwrap(lenv['e'])) if lenv.get('k') == 'addr' else None
+
+                        def ef(fb, t2, lab2, lenv=lenv):
+                            if fb.cond is None or lab2 not in (True, False) or lenv is None:
+                                return True
+                            return not cond_cut(fb.cond, lab2, lambda at: at.ls == lenv and at.op == '!=')
+                        hits, _e, _n = a.search(('edge', tb.id, t), goal=lambda ev: any(ev is cp for cp in cps), edge_filter=ef)
+                        okf = okf and not hits
+            okf = okf and all(a.uncut_path(cp, scm) is None for cp in cps)
+            dom = a.dom()
+            okf = okf and all(any(tb.id in dom.get(cp.blk, ()) for tb in tested) for cp in cps)
+        ctx.check('R1', 'creds-are-the-effective-ids', okf, cps[0] if cps else a,
+                  'the peer credentials come from getsockopt(SO_PEERCRED); the message credentials are used only if that fails',
+                  'the message credentials (real ids of the last writer) are used although SO_PEERCRED was available')
     # the control buffer belongs to the handshake recvmsg
     ini = prog.fn('init_ipc_auth_data')
     ctl = [ev for ev in ini.events('STORE') if field_is(ev.lhs, 'msg_control')]
@@ -135,8 +176,56 @@ def r2(ctx):
               '_sock_add_to_mainloop is called only from qb_ipcs_us_connect', '_sock_add_to_mainloop has other callers')
 
 
+def r3_dir(ctx):
+    """the per-connection directory: mkdtemp gives 0700 and the server's ids; it is re-owned and widened only after the accept callback
+    returned 0, with the ids and a mode derived from c->auth, in handle_new_connection (so for both transports)"""
+    prog = ctx.prog
+    h = prog.fn('handle_new_connection')
+    mk = list(h.calls('mkdtemp'))
+    if len(mk) != 1:
+        raise AnalysisBroken('handle_new_connection: mkdtemp sites = %d' % len(mk))
+    acc = list(h.calls('qb_ipcs_service_handlers::connection_accept'))
+    if len(acc) != 1:
+        raise AnalysisBroken('handle_new_connection: accept sites = %d' % len(acc))
+    desc = estr(unwrap(mk[0].args[0]))
+    cms = [ev for ev in h.calls('chmod') if estr(unwrap(ev.args[0])) == desc]
+    chs = [ev for ev in h.calls('chown') if estr(unwrap(ev.args[0])) == desc]
+    bad = None
+    for ev in cms:
+        m = cval(unwrap(ev.args[1]))
+        from_auth = any(n.get('k') == 'mem' and n.get('f') == 'mode' and 'auth' in estr(n) for n in walk(ev.args[1]))
+        if m is not None and m & 0o077:
+            bad = (ev, 'the connection directory is given the constant mode %s whatever the accept callback chose (default owner-only): another user in the '
+                       'peer\'s group can list it, delete ring files and plant its own - before the callback has run and for refused clients too' % oct(m))
+        elif m is None and not from_auth:
+            bad = (ev, 'the connection directory is given a mode that does not come from c->auth')
+        elif from_auth and not h.may_follow(acc[0], ev):
+            bad = (ev, 'the connection directory is widened before the accept callback has chosen the mode')
+    ctx.check('R3', 'dir:mode-from-auth-after-accept', bad is None, bad[0] if bad else (cms[0] if cms else mk[0]),
+              'the directory keeps mkdtemp\'s 0700 until the accept callback returned, then gets a mode derived from c->auth.mode',
+              bad[1] if bad else '')
+    # widened only for an accepted client: the chmod is behind the refusal test
+    resv = None
+    for st in h.events('STORE'):
+        if st.rhs is not None and callee_of(unwrap(st.rhs)) == 'qb_ipcs_service_handlers::connection_accept':
+            resv = estr(st.lhs)
+    for ev in cms:
+        if cval(unwrap(ev.args[1])) is None:
+            ctx.check('R3', 'dir:widened-only-when-accepted', resv is not None and h.uncut_path(ev, lambda a, fb: a.ls == resv and a.op == '==' and a.rc == 0, start=('after', acc[0])) is None, ev,
+                      'the directory of a refused client stays 0700', 'the directory is widened although the accept callback refused')
+    own = [ev for ev in chs if h.may_follow(acc[0], ev) and field_is(ev.args[1], 'uid') and 'auth' in estr(ev.args[1]) and field_is(ev.args[2], 'gid') and 'auth' in estr(ev.args[2])]
+    ctx.check('R3', 'dir:owner-from-auth-after-accept', bool(own), own[0] if own else mk[0],
+              'after the accept callback the directory is given to c->auth.uid / c->auth.gid (for both transports: in handle_new_connection)',
+              'the directory is not re-owned after the accept callback (an owner set with qb_ipcs_connection_auth_set is not applied to it)')
+    for ev in own:
+        later = [c for c in cms if cval(unwrap(c.args[1])) is None]
+        ctx.check('R3', 'dir:chown-before-chmod', bool(later) and all(h.ev_dominates(ev, c) for c in later), ev, 'the directory is re-owned before it is widened',
+                  'the directory is widened before it is re-owned')
+
+
 def r3(ctx):
     prog = ctx.prog
+    r3_dir(ctx)
     o = prog.fn('open_mmap_file')
     opens = list(o.calls('open'))
     mk = list(o.calls('mkstemp'))
